@@ -257,10 +257,20 @@ impl<'a> WorldSat<'a> {
                 s.ecdsa.insert(*id, *sig);
             }
         }
-        if let (Some(ik), Some(sig)) = (inp.tap_internal_key, inp.tap_key_sig) {
-            for id in by_pk.get(&ik.serialize().to_vec()).unwrap_or(&none) {
-                s.tap_key.insert(*id, sig);
+        match (inp.tap_internal_key, inp.tap_key_sig) {
+            (Some(ik), Some(sig)) => {
+                for id in by_pk.get(&ik.serialize().to_vec()).unwrap_or(&none) {
+                    s.tap_key.insert(*id, sig);
+                }
             }
+            // no internal key recorded (it is optional): the key-path signature is there all the same;
+            // only the descriptor's internal key is ever asked for it
+            (None, Some(sig)) => {
+                for k in &uni.keys {
+                    s.tap_key.insert(k.id, sig);
+                }
+            }
+            _ => {}
         }
         for ((xpk, lh), sig) in &inp.tap_script_sigs {
             for id in by_pk.get(&xpk.serialize().to_vec()).unwrap_or(&none) {
